@@ -650,15 +650,22 @@ type retCase struct {
 // that block is a case of its own, with every such phi replaced by its value on that edge (so that "pointer nil
 // iff error non-nil" can be judged per case even when both are named results merged at one exit). Up to three
 // levels of merging are taken apart.
-func returnCases(fn *ssa.Function) []retCase {
+func returnCases(fn *ssa.Function) []retCase { return returnCasesDepth(fn, 3) }
+
+// returnCasesDepth: as returnCases, taking apart at most maxDepth levels of merges (1: only the merge that feeds
+// the return itself, so that Via is the block that chose the values).
+func returnCasesDepth(fn *ssa.Function, maxDepth int) []retCase {
 	var out []retCase
 	n := 0
 	var expand func(ret *ssa.Return, vals []ssa.Value, via, into *ssa.BasicBlock, depth int)
 	expand = func(ret *ssa.Return, vals []ssa.Value, via, into *ssa.BasicBlock, depth int) {
 		var blk *ssa.BasicBlock
-		if depth < 3 {
+		if depth < maxDepth {
 			for _, v := range vals {
 				if phi, ok := v.(*ssa.Phi); ok {
+					if maxDepth == 1 && phi.Block() != ret.Block() {
+						continue // only the merge that feeds the return itself
+					}
 					if blk == nil || phi.Block().Dominates(blk) == false && blk.Dominates(phi.Block()) {
 						blk = phi.Block()
 					}
@@ -666,6 +673,39 @@ func returnCases(fn *ssa.Function) []retCase {
 			}
 		}
 		if blk == nil {
+			// "return helper()" where the helper is a closure or function of the module whose own returns are
+			// constants or freshly made interface values (nil, an error value built on the spot): each of the
+			// helper's returns is a case of this one
+			if depth < 3 && len(vals) > 0 {
+				if hc := sameTupleCall(vals); hc != nil {
+					if h := hc.Call.StaticCallee(); h != nil && h.Blocks != nil && h != fn {
+						var subs [][]ssa.Value
+						okAll := true
+						for _, hr := range returnsOf(h) {
+							hv := results(hr)
+							if len(hv) != len(vals) {
+								okAll = false
+								break
+							}
+							for _, v := range hv {
+								switch v.(type) {
+								case *ssa.Const, *ssa.MakeInterface:
+								default:
+									okAll = false
+								}
+							}
+							subs = append(subs, hv)
+						}
+						if okAll && len(subs) > 0 {
+							for _, hv := range subs {
+								n++
+								out = append(out, retCase{ret, hv, via, into, n})
+							}
+							return
+						}
+					}
+				}
+			}
 			n++
 			out = append(out, retCase{ret, vals, via, into, n})
 			return
@@ -686,4 +726,27 @@ func returnCases(fn *ssa.Function) []retCase {
 		expand(ret, results(ret), ret.Block(), nil, 0)
 	}
 	return out
+}
+
+// sameTupleCall: vals are exactly extract #0, #1, ... of one call; returns that call.
+func sameTupleCall(vals []ssa.Value) *ssa.Call {
+	var call *ssa.Call
+	for i, v := range vals {
+		ex, ok := v.(*ssa.Extract)
+		if !ok || ex.Index != i {
+			return nil
+		}
+		c, ok := ex.Tuple.(*ssa.Call)
+		if !ok || (call != nil && c != call) {
+			return nil
+		}
+		call = c
+	}
+	if call == nil || call.Call.IsInvoke() {
+		return nil
+	}
+	if sig, ok := call.Call.Value.Type().Underlying().(*types.Signature); !ok || sig.Results().Len() != len(vals) {
+		return nil
+	}
+	return call
 }
